@@ -479,7 +479,66 @@ func (g *Gen) estabReq(s *gsession) *SessReq {
 }
 
 // modify sends one modification inside the envelope.
-func (g *Gen) modify(s *gsession) {
+func (g *Gen) modify(s *gsession) { g.modifyKind(s, -1) }
+
+// Scripted use (GEN): establish a session on a peer / modify it in a given way / delete it.
+type GSession = gsession
+
+// EstablishOn establishes a new session on the peer and returns it (nil if refused).
+func (g *Gen) EstablishOn(peer string) *GSession {
+	s := g.mkSession(peer)
+	ds := g.W.Estab(peer, g.estabReq(s))
+
+	if len(ds) >= 1 && ds[0].Cause == 1 && ds[0].HasFSEID {
+		s.up, s.live = ds[0].UPSeid, true
+
+		for _, c := range ds[0].Created {
+			if c.HasUE {
+				s.ueip = c.UEIP
+			}
+		}
+
+		g.sessions = append(g.sessions, s)
+
+		return s
+	}
+
+	return nil
+}
+
+// ModifyKind sends the modification of the given kind: 0 Update FAR (handover), 1 Update QER, 2 Update PDR,
+// 3 new bearer, 4 bearer removed, 5 new CP F-SEID.
+func (g *Gen) ModifyKind(s *GSession, kind int) { g.modifyKind(s, kind) }
+
+// DeleteSession deletes the session.
+func (g *Gen) DeleteSession(s *GSession) {
+	if ds := g.W.Del(s.peer, &SessReq{Hdr: s.up}); len(ds) >= 1 && ds[0].Cause == 1 {
+		s.live = false
+	}
+}
+
+// IsLive tells whether the generator believes the session live.
+func (s *gsession) IsLive() bool { return s != nil && s.live }
+
+// Reseed restarts the random stream (requests after the same reseed have the same shape).
+func (g *Gen) Reseed(seed int64) { g.R = rand.New(rand.NewSource(seed)) }
+
+// Forget marks every session and association of the generator as gone (the agent was restarted / the association released).
+func (g *Gen) Forget(peer string) {
+	for _, s := range g.sessions {
+		if peer == "" || s.peer == peer {
+			s.live = false
+		}
+	}
+
+	for p := range g.assoc {
+		if peer == "" || p == peer {
+			g.assoc[p] = false
+		}
+	}
+}
+
+func (g *Gen) modifyKind(s *gsession, forced int) {
 	w := g.W
 	r := &SessReq{Hdr: s.up}
 
@@ -487,6 +546,10 @@ func (g *Gen) modify(s *gsession) {
 	kind := g.R.Intn(6)
 	if g.Opt.FarBias && g.R.Intn(4) > 0 {
 		kind = 0
+	}
+
+	if forced >= 0 {
+		kind = forced
 	}
 
 	if len(s.bearers) == 0 {
